@@ -64,6 +64,8 @@ def build(kind, value, opt):
     options = build_options(tuple(opt))
     if kind == 'json':
         return gjson.build_tree(value, options)
+    if kind == 'pydict':
+        return gjson.build_tree({k: v for k, v in value}, options)
     if kind == 'multiset':
         return graphtage.MultiSetNode([gjson.build_tree(v, options) for v in value])
     if kind == 'string':
@@ -89,6 +91,8 @@ def expected_plain(kind, value):
     from mc.gen import Bag
     if kind == 'json' or kind == 'string':
         return value
+    if kind == 'pydict':
+        return {k: v for k, v in value}
     if kind == 'multiset':
         return Bag(value)
     if kind == 'xml':
@@ -155,6 +159,19 @@ def fam_lists(maxlen, symbols):
                 yield {'kind': 'json', 'a': a, 'b': b, 'opt': ['auto', lm]}
 
 
+def fam_lists_2level(inner_maxlen, outer_maxlen, symbols=(1, 2)):
+    inner = []
+    for n in range(0, inner_maxlen + 1):
+        inner.extend(list(t) for t in itertools.product(symbols, repeat=n))
+    outer = []
+    for n in range(0, outer_maxlen + 1):
+        outer.extend(list(t) for t in itertools.product(inner, repeat=n))
+    for a in outer:
+        for b in outer:
+            for lm in LIST_MODES:
+                yield {'kind': 'json', 'a': a, 'b': b, 'opt': ['auto', lm]}
+
+
 def fam_dicts(keys, values):
     docs = []
     for combo in itertools.product((None,) + tuple(range(len(values))), repeat=len(keys)):
@@ -163,6 +180,19 @@ def fam_dicts(keys, values):
         for b in docs:
             for ds in DICT_STRATEGIES:
                 yield {'kind': 'json', 'a': a, 'b': b, 'opt': [ds, 'on']}
+
+
+def fam_mixed_keys(keys=(2, '1a', '5', 10)):
+    """Mappings whose keys mix ints and strings (reachable from YAML, pickle and the Python API)."""
+    subsets = []
+    for n in range(0, len(keys) + 1):
+        subsets.extend(itertools.combinations(keys, n))
+    for ka in subsets:
+        for kb in subsets:
+            a = [[k, f'v{i}'] for i, k in enumerate(ka)]
+            b = [[k, f'w{i}'] for i, k in enumerate(kb)]
+            for ds in DICT_STRATEGIES:
+                yield {'kind': 'pydict', 'a': a, 'b': b, 'opt': [ds, 'on']}
 
 
 def fam_multisets(values, maxsize):
@@ -253,8 +283,10 @@ def families(tier, docs_budget=None):
         ('lists_leaf', fam_lists(4 if q else 5, (1, 2))),
         ('lists_nested', fam_lists(3 if q else 4, ([1], [2]))),
         ('lists_mixed', fam_lists(3 if q else 4, (1, [1], None))),
+        ('lists_2level', fam_lists_2level(2, 2) if q else fam_lists_2level(2, 2, (1, 2, None))),
         ('dicts', fam_dicts(('a', 'ab', 'c'), (1, 2))),
         ('dicts_nested', fam_dicts(('a', 'ab'), ([1], [1, 2], {'a': 1}))),
+        ('dicts_mixed_keys', fam_mixed_keys()),
         ('multisets', fam_multisets((1, 2, 'ab'), 3)),
         ('multisets_nested', fam_multisets((1, [1], [2]), 2 if q else 3)),
         ('xml', fam_xml(tier)),
